@@ -56,6 +56,16 @@ impl UnaryParser {
                             parser.consume_token();
                             return Ok(SmartCalcAstType::PrefixUnary(operator, Rc::new(SmartCalcAstType::PrefixUnary(operator, Rc::new(SmartCalcAstType::Item(Rc::new(MoneyItem(*money, currency.clone()))))))));
                         },
+                        TokenType::Operator('(') => {
+                            return match PrimativeParser::parse_parenthesis(parser) {
+                                Ok(SmartCalcAstType::None) => {
+                                    parser.set_index(index_backup);
+                                    Err(("Unary works with number", 0, 0))
+                                },
+                                Ok(ast) => Ok(SmartCalcAstType::PrefixUnary(operator, Rc::new(ast))),
+                                Err(error) => Err(error)
+                            };
+                        },
                         _ => {
                             parser.set_index(index_backup);
                             return Err(("Unary works with number", 0, 0));
